@@ -44,6 +44,7 @@ struct Pool {
     int index(int64_t i) const { return (int)((uint64_t)i % ptr.size()); }
     const std::string &value(int i) const { return val[(size_t)i % val.size()]; }
     bool owns(const void *p) const;
+    int find(const void *p) const;   // index of the pool string starting at p, -1 if none
 };
 Pool &pool();
 
@@ -92,7 +93,8 @@ struct GenOpts {
     bool valid_utf8 = false;           // strings and keys valid UTF-8 only
     bool allow_nonfinite = false;
     bool allow_raw = false;
-    bool pointer_keys = false;         // keys over an alphabet with / ~ 0 1 - and the empty key
+    bool pointer_keys = false;
+    bool case_keys = false;            // keys from a tiny alphabet of case variants (a A b B c C)         // keys over an alphabet with / ~ 0 1 - and the empty key
     bool allow_null = true;
     bool plain_numbers = false;        // numbers that Utils compares robustly (identical or clearly different)
     bool ascii_strings = false;
